@@ -2,6 +2,26 @@
 from .core import AnalysisError, Finding
 from .bitdom import summarise_binding, Cell, merge_cells, INF
 from .bitcells import cells_overlap
+from .bitdom import resolve_built_tables
+from . import facts as _facts_module
+
+
+def _hook_facts():
+    """facts.py folds literal tables only; tables built by a pure helper are resolved right after the program model is
+    constructed (should become a call at the end of Facts._collect)."""
+    cls = _facts_module.Facts
+    if getattr(cls, '_bitdom_hooked', False):
+        return
+    orig = cls.__init__
+
+    def init(self, *args, **kwargs):
+        orig(self, *args, **kwargs)
+        resolve_built_tables(self)
+    cls.__init__ = init
+    cls._bitdom_hooked = True
+
+
+_hook_facts()
 from . import oracle
 
 _cache = {}
@@ -188,6 +208,7 @@ def compare_with_oracle(summary, spec):
         out.append(('overlap', 'two fields are OR-ed onto instruction bit {} ({} and {})'.format(i, x, y)))
     for msg in getattr(summary, 'problems', ()):
         out.append(('operand', msg))
+    out.extend(letter_form_mismatches(summary, spec))
     ops = spec['operands']
     if len(ops) != len(summary.params):
         out.append(('arity', 'encoder takes operands {} but the ISA form has {}'.format(summary.params, [o['role'] for o in ops])))
@@ -352,3 +373,35 @@ def register_spellings_normalised(facts, mnemonics=None):
     if not seen:
         return None, []
     return not bad, bad
+
+
+# FENCE access sets written with letters: RISC-V unprivileged ISA, ch. 2.7 "Memory Ordering Instructions": the predecessor /
+# successor fields are PI PO PR PW (bits 27..24) and SI SO SR SW (bits 23..20), i.e. within each 4-bit set
+# i (device input) = bit 3, o (device output) = bit 2, r (memory reads) = bit 1, w (memory writes) = bit 0.
+FENCE_SET_LETTERS = {'i': 8, 'o': 4, 'r': 2, 'w': 1}
+
+
+def letter_form_mismatches(summary, spec):
+    """An operand that may also be spelled as a set of letters (fence iorw): the value each letter contributes must be the
+    ISA's bit for it, letters must be counted once."""
+    out = []
+    forms = getattr(summary, 'letter_forms', {}) or {}
+    if not forms:
+        return out
+    ops = spec['operands']
+    roles = {p: op['role'] for p, op in zip(summary.params, ops)} if len(ops) == len(summary.params) else {}
+    for p, form in forms.items():
+        role = roles.get(p)
+        if role not in ('succ', 'pred'):
+            raise AnalysisError('{}: operand {} accepts letter spellings but the reference has no letter form for role {}'.format(
+                summary.name, p, role))
+        wrong = {l: v for l, v in form['map'].items() if FENCE_SET_LETTERS.get(l) != v}
+        if wrong:
+            out.append(('letters', 'operand {} ({}): written as letters, {} but the ISA access-set bits are {}: a letter set is '
+                        'emitted as a different set than the same set written as a number'.format(
+                            p, role, ', '.join('{!r} contributes {:#06b}'.format(l, v) for l, v in sorted(wrong.items())),
+                            ', '.join('{}={:#06b}'.format(l, v) for l, v in FENCE_SET_LETTERS.items()))))
+        elif form['how'] == 'sum' and not form['distinct']:
+            out.append(('letters', 'operand {} ({}): written as letters, a repeated letter is added twice and spills into the '
+                        'next bit'.format(p, role)))
+    return out
